@@ -153,19 +153,38 @@ class StrDecl:
         return "#[nutype(%s)]\npub struct %s(String);" % (", ".join(items), self.name)
 
     def prelude(self):
-        return ("static mut MINL: usize = 0; static mut MAXL: usize = 0; static mut PLEN: usize = 0; static mut RXPAR: usize = 0;\n"
-                "    fn minl() -> usize { unsafe { MINL } }  fn maxl() -> usize { unsafe { MAXL } }\n"
-                "    /// custom predicate / regex object: members of symbolic families over the byte length of the text\n"
-                "    fn pred(s: &str) -> bool { s.len() != unsafe { PLEN } }\n"
-                "    pub struct Rx; impl Rx { pub fn is_match(&self, s: &str) -> bool { s.len() % 2 == unsafe { RXPAR } % 2 } }\n"
-                "    pub static RX: Rx = Rx;\n"
-                "    /// custom sanitizer: in place, length preserving: every `_` becomes a space\n"
-                "    fn mark(s: String) -> String { let mut v = s.into_bytes(); let mut i = 0; while i < v.len() { if v[i] == b'_' { v[i] = b' '; } i += 1; } unsafe { String::from_utf8_unchecked(v) } }")
+        """only the statics / user functions this declaration refers to (writing, from a harness, a `static mut` that no
+        reachable code reads made CBMC's memory model go wrong: spurious free()/dereference failures, see DESIGN §11)"""
+        out = []
+        if "min" in self.validators and not self.literal:
+            out.append("static mut MINL: usize = 0; fn minl() -> usize { unsafe { MINL } }")
+        if "max" in self.validators and not self.literal:
+            out.append("static mut MAXL: usize = 0; fn maxl() -> usize { unsafe { MAXL } }")
+        if "pred" in self.validators:
+            out.append("static mut PLEN: usize = 0;\n    /// custom predicate: member of a symbolic family over the byte length of the text\n    fn pred(s: &str) -> bool { s.len() != unsafe { PLEN } }")
+        if "regex" in self.validators:
+            out.append("static mut RXPAR: usize = 0;\n    /// regex object given by path: the macro only needs `.is_match(&str)`\n"
+                       "    pub struct Rx { pub tag: u8 } impl Rx { pub fn is_match(&self, s: &str) -> bool { s.len() % 2 == unsafe { RXPAR } % 2 } }\n    pub static RX: Rx = Rx { tag: 1 };")
+        if "with" in self.sanitizers:
+            out.append("/// custom sanitizer: in place, length preserving: every `_` becomes a space\n"
+                       "    fn mark(s: String) -> String { let mut v = s.into_bytes(); let mut i = 0; while i < v.len() { if v[i] == b'_' { v[i] = b' '; } i += 1; } unsafe { String::from_utf8_unchecked(v) } }")
+        return "\n    ".join(out)
 
     def setup(self):
-        if self.literal:
-            return "let mn: usize = %s; let mx: usize = %s; unsafe { PLEN = kani::any(); RXPAR = kani::any(); }" % (self.literal.get("min", 0), self.literal.get("max", 0))
-        return "let mn: usize = kani::any(); let mx: usize = kani::any(); unsafe { MINL = mn; MAXL = mx; PLEN = kani::any(); RXPAR = kani::any(); }"
+        st = []
+        if "min" in self.validators:
+            st.append("let mn: usize = %s;" % (self.literal["min"] if self.literal else "kani::any()"))
+            if not self.literal:
+                st.append("unsafe { MINL = mn; }")
+        if "max" in self.validators:
+            st.append("let mx: usize = %s;" % (self.literal["max"] if self.literal else "kani::any()"))
+            if not self.literal:
+                st.append("unsafe { MAXL = mx; }")
+        if "pred" in self.validators:
+            st.append("unsafe { PLEN = kani::any(); }")
+        if "regex" in self.validators:
+            st.append("unsafe { RXPAR = kani::any(); }")
+        return " ".join(st)
 
     def violated(self, v, cells):
         n = len(cells)
@@ -258,6 +277,8 @@ def input_from_cells(cells, var="raw"):
 
 
 def plan_stmt(plans):
+    if not plans:
+        return []   # never write a static that no reachable code reads (see StrDecl.prelude)
     st = ["unsafe { crate::support::strmodel::TRIM_CALLS = 0; }"]
     for i, (a, b) in enumerate(plans):
         st.append("unsafe { crate::support::strmodel::P%dS = %d; crate::support::strmodel::P%dE = %d; }" % (i, a, i, b))
